@@ -7,6 +7,8 @@ import (
 	"fmt"
 	"io"
 	"os"
+	"os/exec"
+	"path/filepath"
 	"runtime"
 	"strconv"
 	"strings"
@@ -174,6 +176,19 @@ func diffOutside(a, b []byte, rs ...rng) int {
 
 func (r *runner) runCmd(c core.Case) {
 	defer runtime.GC() // the commands never close their files; let the finalizers do it
+	cls := r.runScript(c, inProcess{}, "")
+	r.out.Class = "cmd:" + cls
+	// the same script through the fittool binary (built from the same tree): flag parsing and the
+	// wiring of main.go included, every invocation a fresh process reading through os.File
+	if cliExpressible(c.Args["script"]) {
+		cls2 := r.runScript(c, cliTool{}, "[cli]")
+		r.O("cli-same-outcome", cls, cls2)
+	}
+}
+
+// runScript runs the script of c on a scratch file through the given tool; every check's name
+// gets the suffix sfx
+func (r *runner) runScript(c core.Case, tool fitTool, sfx string) string {
 	img := buildImage(c.Args["img"])
 	tmp, err := os.CreateTemp("", "c14-fit-*.rom")
 	must(err)
@@ -187,22 +202,20 @@ func (r *runner) runCmd(c core.Case) {
 		before, err := os.ReadFile(path)
 		must(err)
 		f := strings.SplitN(step, ":", 3)
-		tag := fmt.Sprintf("step%d-%s", si, f[0])
+		tag := fmt.Sprintf("step%d-%s%s", si, f[0], sfx)
 		n := uint64(len(before))
 		xb := "x:" + core.Hex(before)
 		var cls string
 		switch f[0] {
 		case "init":
 			v := pu(f[2], 64)
-			cmd := &cmdinit.Command{UEFIPath: path}
 			off := v
 			if f[1] == "p" {
-				cmd.Pointer = &v
 				off = v - (uint64(1<<32) - n)
+				cls = tool.init(path, &v, nil)
 			} else {
-				cmd.PointerFromOffset = &v
+				cls = tool.init(path, nil, &v)
 			}
-			cls = catch(func() error { return cmd.Execute(nil) })
 			after, err := os.ReadFile(path)
 			must(err)
 			r.M(tag, fmt.Sprintf("cmdinit %s %d", xb, off), fmt.Sprintf("%s %d %d", map[bool]string{true: "ok", false: "err"}[cls == "ok"], len(after), core.FNV(after)))
@@ -219,22 +232,16 @@ func (r *runner) runCmd(c core.Case) {
 			var o rawOpts
 			var idx uint64
 			var req string
-			var ex func() error
 			if f[0] == "add" {
 				o = parseRaw(f[1])
-				cmd := &addrawheaders.Command{UEFIPath: path, AddressPointer: o.ap, AddressOffset: o.ao, Size: o.size,
-					Type: o.typ, IsChecksumValid: o.cv, Checksum: o.cks}
-				ex = func() error { return cmd.Execute(nil) }
 				req = fmt.Sprintf("cmdadd %s %s", xb, f[1])
+				cls = tool.add(path, o)
 			} else {
 				idx = pu(f[1], 16)
 				o = parseRaw(f[2])
-				cmd := &setrawheaders.Command{UEFIPath: path, EntryNumber: uint(idx), AddressPointer: o.ap, AddressOffset: o.ao,
-					Size: o.size, Type: o.typ, IsChecksumValid: o.cv, Checksum: o.cks}
-				ex = func() error { return cmd.Execute(nil) }
 				req = fmt.Sprintf("cmdset %s %d %s", xb, idx, f[2])
+				cls = tool.set(path, idx, o)
 			}
-			cls = catch(ex)
 			after, err := os.ReadFile(path)
 			must(err)
 			exp := fail(cls)
@@ -273,8 +280,7 @@ func (r *runner) runCmd(c core.Case) {
 			}
 		case "remove":
 			idx := pu(f[1], 16)
-			cmd := &removeheaders.Command{UEFIPath: path, EntryNumber: uint(idx)}
-			cls = catch(func() error { return cmd.Execute(nil) })
+			cls = tool.remove(path, idx)
 			after, err := os.ReadFile(path)
 			must(err)
 			exp := fail(cls)
@@ -300,14 +306,8 @@ func (r *runner) runCmd(c core.Case) {
 				}
 			}
 		case "show":
-			format := "json"
-			cmd := &show.Command{UEFIPath: path, Format: &format}
 			var outb []byte
-			cls = catch(func() error {
-				var e error
-				outb = captureStdout(func() { e = cmd.Execute(nil) })
-				return e
-			})
+			cls, outb = tool.show(path, false)
 			t, terr := fit.GetTable(before)
 			r.O(tag+"-agrees-with-get-table", core.ErrClass(terr), cls)
 			if cls == "ok" && terr == nil {
@@ -317,6 +317,13 @@ func (r *runner) runCmd(c core.Case) {
 				jc := catch(func() error { return json.Unmarshal(outb, &tj) })
 				r.O(tag+"-json-roundtrip", "ok "+showHdrs(t), jc+" "+showHdrs(tj))
 			}
+			// … and with --include-data: the same headers, and every data segment printed is the
+			// bytes the file holds at the address-derived offset
+			dcls, dout := tool.show(path, true)
+			r.O(tag+"-data-agrees-with-get-table", core.ErrClass(terr), dcls)
+			if dcls == "ok" && terr == nil {
+				r.O(tag+"-data-reports-file", "same", shownHoldsFile(before, t, dout))
+			}
 			after, err := os.ReadFile(path)
 			must(err)
 			r.O(tag+"-file-untouched", "same", same(bytes.Equal(before, after)))
@@ -325,7 +332,196 @@ func (r *runner) runCmd(c core.Case) {
 		}
 		classes = append(classes, f[0]+"="+cls)
 	}
-	r.out.Class = "cmd:" + strings.Join(classes, ",")
+	return strings.Join(classes, ",")
+}
+
+// shownHoldsFile decodes what `show --format=json --include-data` printed: one object per entry
+// with the headers and, where the entry has a data segment, the bytes of it (base64; an ACM prints
+// them as DataNotParsedBase64).  "same" or the first difference.
+func shownHoldsFile(file []byte, t fit.Table, out []byte) string {
+	var shown []struct {
+		Headers             fit.EntryHeaders
+		DataSegmentBytes    []byte
+		DataNotParsedBase64 []byte
+	}
+	if cls := catch(func() error { return json.Unmarshal(out, &shown) }); cls != "ok" {
+		return "output is not the JSON of a list of entries"
+	}
+	if len(shown) != len(t) {
+		return fmt.Sprintf("%d entries instead of %d", len(shown), len(t))
+	}
+	base := uint64(1<<32) - uint64(len(file))
+	for i, e := range shown {
+		if showHdr(e.Headers) != showHdr(t[i]) {
+			return fmt.Sprintf("entry %d: header %s instead of %s", i, showHdr(e.Headers), showHdr(t[i]))
+		}
+		d := e.DataSegmentBytes
+		if len(d) == 0 {
+			d = e.DataNotParsedBase64
+		}
+		if len(d) > 0 {
+			off := uint64(e.Headers.Address) - base
+			end := off + uint64(len(d))
+			if end < off || end > uint64(len(file)) || !bytes.Equal(file[off:end], d) {
+				return fmt.Sprintf("entry %d: %d data bytes that are not the file bytes at offset %d", i, len(d), off)
+			}
+		}
+	}
+	return "same"
+}
+
+// ---- the two ways of running a fittool command
+
+type fitTool interface {
+	init(path string, pointer, fromOffset *uint64) string
+	add(path string, o rawOpts) string
+	set(path string, idx uint64, o rawOpts) string
+	remove(path string, idx uint64) string
+	show(path string, includeData bool) (string, []byte)
+}
+
+// inProcess calls the Execute functions of cmds/fittool/commands directly
+type inProcess struct{}
+
+func (inProcess) init(path string, pointer, fromOffset *uint64) string {
+	cmd := &cmdinit.Command{UEFIPath: path, Pointer: pointer, PointerFromOffset: fromOffset}
+	return catch(func() error { return cmd.Execute(nil) })
+}
+
+func (inProcess) add(path string, o rawOpts) string {
+	cmd := &addrawheaders.Command{UEFIPath: path, AddressPointer: o.ap, AddressOffset: o.ao, Size: o.size,
+		Type: o.typ, IsChecksumValid: o.cv, Checksum: o.cks}
+	return catch(func() error { return cmd.Execute(nil) })
+}
+
+func (inProcess) set(path string, idx uint64, o rawOpts) string {
+	cmd := &setrawheaders.Command{UEFIPath: path, EntryNumber: uint(idx), AddressPointer: o.ap, AddressOffset: o.ao,
+		Size: o.size, Type: o.typ, IsChecksumValid: o.cv, Checksum: o.cks}
+	return catch(func() error { return cmd.Execute(nil) })
+}
+
+func (inProcess) remove(path string, idx uint64) string {
+	cmd := &removeheaders.Command{UEFIPath: path, EntryNumber: uint(idx)}
+	return catch(func() error { return cmd.Execute(nil) })
+}
+
+func (inProcess) show(path string, includeData bool) (string, []byte) {
+	format := "json"
+	cmd := &show.Command{UEFIPath: path, Format: &format}
+	if includeData {
+		cmd.IncludeData = &includeData
+	}
+	var outb []byte
+	cls := catch(func() error {
+		var e error
+		outb = captureStdout(func() { e = cmd.Execute(nil) })
+		return e
+	})
+	return cls, outb
+}
+
+// cliTool runs the fittool binary (checks.d/C14.json aux_builds: ./cmds/fittool -> harness/bin/fittoolcli)
+type cliTool struct{}
+
+func cliPath() string {
+	root := os.Getenv("VERIF_ROOT")
+	if root == "" {
+		root = "/verif"
+	}
+	return filepath.Join(root, "harness", "bin", "fittoolcli")
+}
+
+func runCLI(args ...string) (string, []byte) {
+	if _, err := os.Stat(cliPath()); err != nil {
+		panic("harness: " + cliPath() + " is missing (aux_builds of checks.d/C14.json)")
+	}
+	cmd := exec.Command(cliPath(), args...)
+	var out bytes.Buffer
+	cmd.Stdout = &out
+	err := cmd.Run()
+	switch e := err.(type) {
+	case nil:
+		return "ok", out.Bytes()
+	case *exec.ExitError:
+		if e.ExitCode() == 1 { // log.Fatal of main.go: the command returned an error
+			return "err", out.Bytes()
+		}
+		return "panic", out.Bytes()
+	}
+	panic("harness: cannot run fittool: " + err.Error())
+}
+
+func rawArgs(o rawOpts) []string {
+	var a []string
+	if o.ap != nil {
+		a = append(a, "--address-pointer", fmt.Sprint(*o.ap))
+	}
+	if o.ao != nil {
+		a = append(a, "--address-offset", fmt.Sprint(*o.ao))
+	}
+	if o.size != nil {
+		a = append(a, "--size", fmt.Sprint(*o.size))
+	}
+	if o.typ != nil {
+		a = append(a, "--type", fmt.Sprint(*o.typ))
+	}
+	if o.cv != nil && *o.cv {
+		a = append(a, "--is-checksum-valid")
+	}
+	if o.cks != nil {
+		a = append(a, "--checksum", fmt.Sprint(*o.cks))
+	}
+	return a
+}
+
+// cliExpressible: the command line has no way of saying --is-checksum-valid=false (a bool flag
+// takes no argument).  For add_raw_headers that equals leaving the flag out (the new entry starts
+// with the bit clear); a set_raw_headers that clears the bit cannot be written down.
+func cliExpressible(script string) bool {
+	for _, step := range strings.Split(script, "|") {
+		f := strings.SplitN(step, ":", 3)
+		if f[0] == "set" {
+			if o := parseRaw(f[2]); o.cv != nil && !*o.cv {
+				return false
+			}
+		}
+	}
+	return true
+}
+
+func (cliTool) init(path string, pointer, fromOffset *uint64) string {
+	a := []string{"init", "-f", path}
+	if pointer != nil {
+		a = append(a, "--pointer", fmt.Sprint(*pointer))
+	}
+	if fromOffset != nil {
+		a = append(a, "--pointer-from-offset", fmt.Sprint(*fromOffset))
+	}
+	cls, _ := runCLI(a...)
+	return cls
+}
+
+func (cliTool) add(path string, o rawOpts) string {
+	cls, _ := runCLI(append([]string{"add_raw_headers", "-f", path}, rawArgs(o)...)...)
+	return cls
+}
+
+func (cliTool) set(path string, idx uint64, o rawOpts) string {
+	cls, _ := runCLI(append([]string{"set_raw_headers", "-f", path, "-n", fmt.Sprint(idx)}, rawArgs(o)...)...)
+	return cls
+}
+
+func (cliTool) remove(path string, idx uint64) string {
+	cls, _ := runCLI("remove_headers", "-f", path, "-n", fmt.Sprint(idx))
+	return cls
+}
+
+func (cliTool) show(path string, includeData bool) (string, []byte) {
+	a := []string{"show", "-f", path, "--format=json"}
+	if includeData {
+		a = append(a, "--include-data")
+	}
+	return runCLI(a...)
 }
 
 // ---- generator of command scripts
@@ -362,8 +558,50 @@ func (g *gen) rawOpts(n int) string {
 	return strings.Join([]string{ap, ao, size, typ, cv, cks}, ",")
 }
 
+// genCmdData: a table whose entries designate bytes of the file (2–5 entries of different kinds
+// with data segments of different lengths inside a file that is not constant), then show: what
+// `show --include-data` prints for each of them must be those bytes.
+func (g *gen) genCmdData(count int) {
+	r := g.r
+	types := []uint8{0x01, 0x07, 0x09, 0x0B, 0x0C, 0x10, 0x2D, 0x2F, 0x7F, 0x30}
+	for i := 0; i < count; i++ {
+		n := 1024 + r.Intn(3000)
+		img := fmt.Sprintf("g:%d:%d:%d:%d", n, 1+2*r.Intn(128), r.Intn(256), r.Intn(256))
+		m := 2 + r.Intn(4)
+		off := r.Intn(n-0x40-16*(m+2)) &^ 3
+		steps := []string{fmt.Sprintf("init:o:%d", off)}
+		perm := r.Perm(len(types))
+		for j := 0; j < m; j++ {
+			t := types[perm[j]]
+			size, l := 0, 0
+			if k := kindOfTypeField(t); isByteKind(k) {
+				size = 1 + r.Intn(200)
+				l = size
+			} else {
+				size = 1 + r.Intn(8)
+				l = 16 * size
+			}
+			ao := r.Intn(n - l + 1)
+			if r.Intn(6) == 0 {
+				ao = n - l // flush with the end of the file
+			}
+			addr := fmt.Sprintf("_,%d", ao)
+			if r.Intn(3) == 0 {
+				addr = fmt.Sprintf("%d,_", uint64(1<<32)-uint64(n)+uint64(ao))
+			}
+			steps = append(steps, fmt.Sprintf("add:%s,%d,%d,%s,_", addr, size, t, []string{"t", "_"}[r.Intn(2)]))
+		}
+		if r.Intn(3) == 0 {
+			steps = append(steps, fmt.Sprintf("remove:%d", 1+r.Intn(m)))
+		}
+		steps = append(steps, "show")
+		g.add("cmd-data", "cmd", "img", img, "script", strings.Join(steps, "|"))
+	}
+}
+
 func (g *gen) genCmd(count int) {
 	r := g.r
+	g.genCmdData(count / 4)
 	for i := 0; i < count; i++ {
 		n := 256 + r.Intn(1800)
 		if r.Intn(10) == 0 {
